@@ -10,7 +10,7 @@ open C10_util
 let admin = coq_of_string "ADMIN"
 
 type pop = PC of string * string | PR of string * string | PH of string | PW of string | PX | PBad
-         | PCf of string * string | PRf of string * string | PRace of string | POvl of string * string
+         | PCf of string * string | PRf of string * string | PRace of string | POvl of string * string * string
 
 let parse_op (o : string) : pop * string list =
   match split_on ':' o with
@@ -22,7 +22,8 @@ let parse_op (o : string) : pop * string list =
   | ["Cf"; c; n] -> PCf (c, n), [c; n]
   | ["Rf"; c; n] -> PRf (c, n), [c; n]
   | ["RACE"; n] -> PRace n, [n]
-  | ["OVL"; h; n] -> POvl (h, n), [h; n]
+  | ["OVL"; h; n] -> POvl ("ovl", h, n), [h; n]
+  | ["SLW"; h; n] -> POvl ("slw", h, n), [h; n]
   | _ :: rest -> PBad, rest
   | [] -> PBad, []
 
@@ -84,16 +85,17 @@ let coq_op env (p : pop) =
   | PRace n -> Some (Tokens.Race (resolve env n)), None
   | PBad | POvl _ -> None, None
 
-(* OVL:<held>:<probe> = authenticate <held> (HTTP), and while it is in flight authenticate <probe> on an ordinary
+(* SLW:<first>:<second> is judged like OVL (the overlap is produced below the repository instead of above it).
+   OVL:<held>:<probe> = authenticate <held> (HTTP), and while it is in flight authenticate <probe> on an ordinary
    route, on an admin route (revocation of a never issued value) and on the websocket check.  In the model these
    are four operations; the answers are computed by [f] (outcome_of on the state, or spec_outcome on the history) *)
 let ovl_ops env h n =
   [Tokens.AuthHttp (resolve env h); Tokens.AuthHttp (resolve env n);
    Tokens.Revoke (resolve env n, coq_of_string "?!ovl"); Tokens.AuthWs (resolve env n)]
-let ovl_s (outs : Tokens.outcome list) =
+let ovl_s kind (outs : Tokens.outcome list) =
   match outs with
   | [Tokens.ORole a; Tokens.ORole b; c; Tokens.OWs w] ->
-    Printf.sprintf "ovl:%s:%s,%s,%s" (role_s a) (role_s b)
+    Printf.sprintf "%s:%s:%s,%s,%s" kind (role_s a) (role_s b)
       (match c with Tokens.ORevoked -> "ok" | Tokens.ODenied -> "401" | _ -> "MODEL-BUG") (if w then "ok" else "no")
   | _ -> "MODEL-BUG"
 
@@ -103,8 +105,8 @@ let model input =
   let st = ref [] in
   let out = Stdlib.List.map (fun p ->
       let r = match p, coq_op env p with
-        | POvl (h, n), _ ->
-          ovl_s (Stdlib.List.map (fun o -> let oc = Tokens.outcome_of admin !st o in st := Tokens.step admin !st o; oc) (ovl_ops env h n))
+        | POvl (kind, h, n), _ ->
+          ovl_s kind (Stdlib.List.map (fun o -> let oc = Tokens.outcome_of admin !st o in st := Tokens.step admin !st o; oc) (ovl_ops env h n))
         | _, (None, _) -> "BAD-OP"
         | _, (Some o, b) ->
           let oc = Tokens.outcome_of admin !st o in
@@ -137,8 +139,8 @@ let spec input obs =
       Stdlib.List.iteri (fun i (p, r) ->
           let res, vec = match split_on '/' r with [a; b] -> a, b | _ -> raise (Fail "malformed-observable no vector") in
           (match p, coq_op env p with
-           | POvl (h, n), _ ->
-             let want = ovl_s (Stdlib.List.map (fun o -> let oc = Tokens.spec_outcome admin !pre o in pre := !pre @ [o]; oc) (ovl_ops env h n)) in
+           | POvl (kind, h, n), _ ->
+             let want = ovl_s kind (Stdlib.List.map (fun o -> let oc = Tokens.spec_outcome admin !pre o in pre := !pre @ [o]; oc) (ovl_ops env h n)) in
              if res <> want then raise (Fail (Printf.sprintf "overlap-interference op %d want %s got %s" i want res))
            | _, (None, _) -> if res <> "BAD-OP" then raise (Fail "malformed-observable bad op")
            | _, (Some o, b) ->
